@@ -206,11 +206,74 @@ def rule_percentile(F, R):
             R.check(okm, "R-C20-3", name, f.loc(), "median is the 50th percentile of the matching variant", "median no longer is %s(.., 50)" % want)
 
 
+def rule_sorted(F, R):
+    """R-C20-5: upper_bound in update()/bin() is only meaningful on sorted ranges: every constructor path reaches update() with the
+    values and the thresholds sorted (std::sort, or the true edge of std::is_sorted), and nothing else writes the thresholds."""
+    from ..cfg import must_dataflow
+    from ..util import strip_not, writes_in, member_path
+    ctors = [f for f in F.functions.values() if f.cls == "nano::histogram_t" and f.raw.get("ctor") and f.relfile == FILES[1] and
+             f.calls(lambda x: callee(x) == "nano::histogram_t::update")]
+    R.floor("R-C20-5", len(ctors), 2, "histogram constructors calling update()")
+
+    def which(f, a, b):
+        ta, tb = pp(a), pp(b)
+        if len(f.params) >= 2 and (ta, tb) == (f.params[0]["n"], f.params[1]["n"]):
+            return "values"
+        if ta in ("begin(m_thresholds)", "m_thresholds.begin()") and tb in ("end(m_thresholds)", "m_thresholds.end()"):
+            return "thresholds"
+        return None
+
+    for f in ctors:
+        cfg = f.cfg
+
+        def telem(facts, e, f=f):
+            if e.kind != "node":
+                return
+            n = e.node
+            if n["k"] == "call" and callee(n) in ("std::sort", "std::stable_sort") and len(args(n)) == 2:
+                w = which(f, *args(n))
+                if w:
+                    facts.add(w)
+
+        def tedge(facts, b, k, f=f):
+            if b.cond is None or len(b.succ) != 2:
+                return
+            c, neg = strip_not(b.cond)
+            c = skip(c)
+            if c["k"] == "call" and callee(c) == "std::is_sorted" and len(args(c)) == 2:
+                w = which(f, *args(c))
+                if w and ((k == 0) != bool(neg)):
+                    facts.add(w)
+
+        IN, before = must_dataflow(cfg, set(), telem, tedge)
+        for u in f.calls(lambda x: callee(x) == "nano::histogram_t::update"):
+            w = cfg.where_enclosing(u)
+            facts = before(*w) if w else None
+            inst = "ctor@%s" % f.loc()
+            if facts is None:
+                R.incomplete("R-C20-5", inst, f.loc(u), "update() call not found in the CFG")
+                continue
+            missing = [x for x in ("values", "thresholds") if x not in facts]
+            R.check(not missing, "R-C20-5", inst, f.loc(u), "values and thresholds are sorted on every path to update()",
+                    "update() (binary search per threshold) can be reached with unsorted %s: bin counts and bin lookups are wrong for such inputs" % " and ".join(missing))
+    # who may write the thresholds
+    writers = set()
+    for f in F.functions.values():
+        if f.cls != "nano::histogram_t" or f.relfile != FILES[1] or f.raw.get("ctor"):
+            continue
+        for tgt, kind, site in writes_in(f, f.body):
+            if member_path(tgt) == "m_thresholds":
+                writers.add("%s (%s)" % (f.qn, f.loc(site)))
+    R.check(not writers, "R-C20-5", "thresholds writers", FILES[1] + ":1", "only constructors write m_thresholds (they stay sorted)",
+            "m_thresholds is modified outside the constructors: %s" % sorted(writers)[:3])
+
+
 def run(ctx):
     R = ctx.report
     F = ctx.facts(TUS)
     rule_lossy(F, R)
     rule_counting(F, R)
     rule_percentile(F, R)
+    rule_sorted(F, R)
     from . import c11_stats
     c11_stats.rule_stats_table(F, R, "R-C20-4")
